@@ -1,4 +1,52 @@
-import YncaVerif.Lemmas.L4Defs
+import YncaVerif.Lemmas.L4Step
 /-! Helper lemmas for C15. -/
 namespace Ynca.L4
+
+/-- the C15 invariant -/
+structure DiscInv (s : St) : Prop where
+  once : s.discCalls = 0 ∨ (s.discCalls = 1 ∧ (s.rpc = .inDiscCb ∨ s.rpc = .lost 5 ∨ s.rpc = .done))
+  cbSet : s.closeStarted = false → s.discCbSet = true
+  called : (s.rpc = .inDiscCb ∨ s.rpc = .lost 5 ∨ s.rpc = .done) → s.discCalls = 1 ∨ s.closeStarted = true
+  down : lossBegun s.rpc = true → s.rpc ≠ .lost 0 → s.connected = false ∧ s.alive = false
+
+theorem discInv_step (P : Params) (s s' : St) (l : Label) (o : Option Obs)
+    (hi : DiscInv s) (hs : step P s l = some (s', o)) : DiscInv s' := by
+  obtain ⟨h1, h2, h3, h4⟩ := hi
+  cases l <;> l4_step_cases hs
+  all_goals
+    constructor <;> simp_all [lossBegun]
+
+theorem discInv_reachable (P : Params) (s : St) (h : Reachable P s) : DiscInv s :=
+  reachable_induction P DiscInv (by constructor <;> simp [lossBegun]) (discInv_step P) s h
+
+theorem disc_at_most_once (P : Params) (s : St) (h : Reachable P s) : s.discCalls ≤ 1 := by
+  have := (discInv_reachable P s h).once
+  omega
+
+theorem disc_exactly_once (P : Params) (s : St) (h : Reachable P s) (hd : s.rpc = .done)
+    (hc : s.closeStarted = false) : s.discCalls = 1 := by
+  have := (discInv_reachable P s h).called (Or.inr (Or.inr hd))
+  simpa [hc] using this
+
+theorem lost_not_connected (P : Params) (s : St) (h : Reachable P s)
+    (hl : lossBegun s.rpc = true) (h0 : s.rpc ≠ .lost 0) : s.connected = false ∧ s.alive = false :=
+  (discInv_reachable P s h).down hl h0
+
+theorem no_msgcb_after_loss (P : Params) (s s' : St) (l : Label) (cb : Nat) (m : Msg)
+    (hl : lossBegun s.rpc = true) (h : step P s l = some (s', some (.msgCb cb m))) : False := by
+  cases l <;> simp only [step, stepS, stepR, stepU, stepClose, enqueue] at h
+  all_goals (repeat' split at h) <;> simp_all [lossBegun]
+
+theorem loss_final (P : Params) (s s' : St) (l : Label) (o : Option Obs)
+    (hl : lossBegun s.rpc = true) (h : step P s l = some (s', o)) : lossBegun s'.rpc = true := by
+  cases l <;> l4_step_cases h
+  all_goals simp_all [lossBegun]
+
+theorem drain_done (P : Params) (s s' : St) (o : Option Obs) (h2 : s.rpc = .lost 1) (hq : s.queue = [])
+    (h : step P s .r = some (s', o)) : s'.rpc = .lost 2 ∧ s'.queue = [] := by
+  simp only [step, stepR, h2, hq] at h
+  simp at h
+  obtain ⟨rfl, rfl⟩ := h
+  simp
+
 end Ynca.L4
